@@ -120,8 +120,11 @@ def generic_case(rng):
     lines = ["class A { public constructor() -> A = default; }", "class B extends A { public constructor() -> B = default; }",
              "class C { public constructor() -> C = default; }",
              "class Box<T> { public T v; public static int n = 0;",
-             "    public constructor(T v) -> Box<T> { this.v = v; n = n + 1; return this; }",
-             "    public function count() -> int { return n; } }",
+             "    public constructor(T v) -> Box<T> { this.v = v; bump(); return this; }",
+             "    public function bump() -> void { step(1); }",
+             "    public function step(int k) -> void { n = n + k; }",
+             "    public function count() -> int { return read(); }",
+             "    public function read() -> int { return n; } }",
              "function main() -> void {"]
     for k, t in enumerate(ts):
         form = rng.randrange(3)
